@@ -310,3 +310,8 @@ def response_ok(mod: Any, status: int, kind: str, payload: Any, text: str, conte
     if kind == "bytes":
         return hasattr(r.parsed, "payload")
     return encode(r.parsed) == encode(parsed)
+
+
+def missing_piece(why: str) -> bool:
+    """A piece the document declares is absent from the generated code (the condition exists to report exactly that)."""
+    return False
